@@ -1,13 +1,22 @@
 pub mod finds;
+pub mod history;
+pub mod ranking;
 pub mod shape;
 
 use crate::fw::Prop;
 
 pub fn get(id: &str) -> Option<Box<dyn Prop>> {
     Some(match id {
+        "C01" => Box::new(history::History(history::Which::NoCrash)),
+        "C10" => Box::new(history::History(history::Which::NoStale)),
+        "C20" => Box::new(history::History(history::Which::Registry)),
         "C02" => Box::new(shape::Shape(shape::Which::Titles)),
         "C05" => Box::new(shape::Shape(shape::Which::Related)),
         "C09" => Box::new(shape::Shape(shape::Which::Markup)),
+        "C06" => Box::new(ranking::Ranking(ranking::Which::Verdicts)),
+        "C07" => Box::new(ranking::Ranking(ranking::Which::Order)),
+        "C08" => Box::new(ranking::Ranking(ranking::Which::Rules)),
+        "C12" => Box::new(ranking::Ranking(ranking::Which::Empty)),
         "C03" => Box::new(finds::Finds(finds::Which::Prefix)),
         "C04" => Box::new(finds::Finds(finds::Which::Typo)),
         "C13" => Box::new(finds::Finds(finds::Which::Whole)),
